@@ -265,6 +265,13 @@ def r02_2(ctx: Ctx) -> None:
            "a word is classified by the mapping first; only unmapped words become INT / IDENTIFIER / TEXT", form="")
 
 
+def _ancestors_of(node: ast.AST, stop: ast.AST):
+    cur = getattr(node, "_parent", None)
+    while cur is not None and cur is not stop:
+        yield cur
+        cur = getattr(cur, "_parent", None)
+
+
 def info_node(ctx: Ctx, name: str) -> ast.AST:
     return ctx.repo.cls(RP, name).node
 
@@ -321,6 +328,21 @@ def r02_3(ctx: Ctx) -> None:
                        f"rule.{field} is scaled by multipliers.{field} (its own multiplier)", form=stmt_key(node))
     if len(sites) < 4:
         raise AnalysisError(f"expected 4 multiplier scaling statements, found {len(sites)}")
+    # each rule is scaled once: the parser scales the rule it has just parsed, never a collection that also holds
+    # rules handed in from earlier texts (those were scaled by the parser that produced them)
+    init = ctx.fn(RP, "Parser.__init__")
+    for node in walk_local(init):
+        if isinstance(node, ast.Assign) and len(node.targets) == 1 and isinstance(node.targets[0], ast.Attribute) \
+                and node.targets[0].attr in ("cutoff", "neighbourhood") and "multipliers" in txt(node.value):
+            subject = txt(node.targets[0].value)
+            srcs = bound_from(init, subject)
+            loops = [lp for lp in [a for a in _ancestors_of(node, init)] if isinstance(lp, ast.For) and txt(lp.target) == subject]
+            fresh = bool(srcs) and all(isinstance(v, ast.Call) and call_name(v) == "self._parse_rule" for v in srcs) and not loops
+            ctx.ob("R02.3", RP, node, "Parser.__init__", f"scale once {node.targets[0].attr}", fresh,
+                   "the parser scales exactly the rule it has just parsed (rules from earlier texts arrive already scaled)",
+                   detail="" if fresh else f"`{subject}` is not the freshly parsed rule: "
+                                           + (f"loop over {txt(loops[0].iter)}" if loops else f"bound from {[txt(v)[:40] for v in srcs]}"),
+                   form=stmt_key(node))
     # scaling applied once per construction path
     scalers = {"create_rules", "Parser", "rule_parser.Parser", "cls", "Ruleset", "from_files", "Ruleset.from_files",
                "copy_with_replacements"}
